@@ -42,13 +42,16 @@ class _NS:
 
 
 class XG:
-    """interpolation.XGrid stand-in: .raw (array) and len() only -- like the real class it is NOT iterable"""
+    """interpolation.XGrid stand-in: .raw (array), len() and == ; like the real class it is NOT iterable.
+    `==` is the real eko.interpolation.XGrid.__eq__ (bound in _modules, numpy rebound to the shim: allclose forks)."""
 
     def __init__(self, raw):
         self.raw = rnp.array(raw, dtype=object)
 
     def __len__(self):
         return len(self.raw)
+
+    __hash__ = object.__hash__
 
 
 class CouplingsRec:
@@ -86,6 +89,8 @@ def _modules():
     m.commons = sym_module("eko.runner.commons")
     m.runcards = sym_module("eko.io.runcards")
     m.msbar = sym_module("eko.msbar_masses")
+    m.interp = sym_module("eko.interpolation")
+    XG.__eq__ = m.interp.XGrid.__eq__
     import eko.couplings as real_couplings
 
     m.info.float = _ident_float
@@ -332,11 +337,17 @@ def case_evolve(log, nfs, target, shuffle, members, alias=None):
         v = S.prove_formula(z3.Not(zover), "no ValueError only if the Q ranges of consecutive nf blocks do not overlap")
         decide(log, v, key="evolve_pdfs:overlap-check", replay=(MOD, "replay_evolve", dict(rk, what="overlap")), sampler=_sampler_mu)
         ok = len(dumped) == 1 and dumped[0][0] == "Out" and len(dumped[0][2]) == members and [a[0] for a in applied] == pdfs
-        ok = ok and all((a[1] is None) == (tg is None) for a in applied)
-        v = prove_concrete(ok, "one set written, one block list per member, every PDF applied once (with the target grid iff given)")
+        v = prove_concrete(ok, "one set written, one block list per member, every PDF applied once")
         decide(log, v, key="evolve_pdfs:members", replay=(MOD, "replay_evolve", dict(rk, what="run")), sampler=_sampler_mu)
         if not ok:
             return
+        # the x nodes the evolved PDFs are delivered on: those handed to apply_pdf, or the EKO/card grid for None
+        gdiffs = []
+        for _pdf, g in applied:
+            used = list(g) if g is not None else xs
+            gdiffs += [SR(QONE)] if len(used) != len(wx) else [u - w for u, w in zip(used, wx)]
+        v = prove_all_zero(gdiffs, "the PDFs are applied on the explicit target grid when one is given (also when it is close to the operator grid), else on the operator grid")
+        decide(log, v, key="evolve_pdfs:targetgrid", replay=(MOD, "replay_evolve", dict(rk, what="run")), sampler=_sampler_mu, candidates=_near_grid_candidates(nfs, alias, target))
         _name, info, member_blocks = dumped[0]
         sorted_q2 = {nf: _sym_sorted([mu * mu for mu in by_nf[nf]]) for nf in keys}
         struct_ok = True
@@ -475,6 +486,24 @@ def _sampler_mu(rng):
     p = {"mu%d" % i: rnd(rng, 2, 90) for i in range(3)}
     p.update({"t0": Fraction(1, 5), "t1": Fraction(4, 5), "t2": Fraction(9, 10)})
     return p
+
+
+def _near_grid_candidates(nfs, alias, target):
+    """candidate points with an explicit target grid at the edge of / inside numpy's allclose tolerance around the operator grid
+    (relative 6e-6; small nodes moved by a few 1e-9), and one clearly different grid"""
+    if not target:
+        return []
+    base = _mk_sampler(nfs, alias)(random.Random(1))
+    out = []
+    for xs_, ts_ in (([Fraction(1, 10), Fraction(1)], [Fraction(1, 10) * (1 + Fraction(6, 10**6)), Fraction(1) - Fraction(6, 10**6)]),
+                     ([Fraction(1, 10**9), Fraction(1, 10**7), Fraction(1)], [Fraction(6, 10**9), Fraction(108, 10**9), Fraction(1)]),
+                     ([Fraction(1, 10), Fraction(1, 2), Fraction(1)], [Fraction(1, 10), Fraction(1, 2) * (1 + Fraction(5, 10**6)), Fraction(1)]),
+                     ([Fraction(1, 10), Fraction(1)], [Fraction(1, 5), Fraction(4, 5)])):
+        p = dict(base)
+        p.update({"x%d" % i: v for i, v in enumerate(xs_)})
+        p.update({"t%d" % i: v for i, v in enumerate(ts_)})
+        out.append(p)
+    return out
 
 
 def _mk_sampler(nfs, alias=None):
